@@ -1,6 +1,6 @@
 (** Property C14 — all input front ends are equivalent views of the same record. *)
 From Coq Require Import String List ZArith Bool.
-From Zog Require Import Model.Val Model.Engine Spec.Sem Proofs.Refine Proofs.FrontEndsP.
+From Zog Require Import Model.Val Model.Engine Model.Http Model.Trim Spec.Sem Proofs.Refine Proofs.FrontEndsP Proofs.TrimP.
 Import ListNotations.
 Open Scope string_scope.
 
@@ -41,6 +41,18 @@ Theorem C14_factory_transparent_ptr : forall e nn pz pv d,
   run Parse (SPtr e nn pz) (DFactory (FProv pv)) d = run Parse (SPtr e nn pz) (DProv pv) d.
 Proof. exact factory_transparent_ptr. Qed.
 Print Assumptions C14_factory_transparent_ptr.
+
+(** zenv trims every value (strings.TrimSpace, modelled in Model/Trim.v): nothing is left exactly when
+    the value is blank, i.e. exactly when the variable counts as absent *)
+Theorem C14_env_blank_iff_trimmed_empty : forall s, trim_space s = "" <-> blank s = true.
+Proof. exact trim_space_empty_iff. Qed.
+Print Assumptions C14_env_blank_iff_trimmed_empty.
+
+(** ... and text that ends in a visible ASCII character loses only the white space after it *)
+Theorem C14_env_trim_keeps_text : forall c1 mid c2 r, visible c2 -> blank r = true ->
+  rtrim (String c1 (mid ++ String c2 r)) = String c1 (mid ++ String c2 "").
+Proof. exact rtrim_core. Qed.
+Print Assumptions C14_env_trim_keeps_text.
 
 (** The full statement of the property also demands that nested struct schemas work with every
     front end.  That part is refuted by the code (and hence by the faithful model): the witnesses
